@@ -1,7 +1,7 @@
 """C12 — inventory homomorphism and running balance on generated ledgers."""
 from decimal import Decimal
 
-from beancount.core import convert, inventory
+from beancount.core import amount, convert, inventory
 
 import ledgers
 
@@ -229,6 +229,21 @@ def balance_layer(ctx, conn):
         line = '(balance %s)' % ' '.join('(%d 2 %s)' % (n + 1, enc_pos(p)) for n, p in enumerate(positions))
         ctx.check('balance-with-subquery-scan', [line], lambda rows=rows: ' | '.join('%s,%s' % (show_inv(r[0]), show_inv(r[2])) for r in rows),
                   nontrivial=len(positions) >= 2, meta={'query': q})
+    # the balance as a later argument of a function whose earlier argument is NULL on part of the rows: every posting
+    # scanned still enters the running balance
+    rows4 = conn.execute('SELECT cost_currency, only(cost_currency, balance) AS o FROM #postings').fetchall()
+    pos4 = [r[0] for r in conn.execute('SELECT position FROM #postings').fetchall()]
+    run4 = inventory.Inventory()
+    expect4 = []
+    for (cc, _), p in zip(rows4, pos4):
+        run4.add_position(p)
+        expect4.append(None if cc is None else run4.get_currency_units(cc))
+    ctx.count('balance-as-later-argument-oracle')
+    ctx.evaluations += 1
+    if [r[1] for r in rows4] != expect4:
+        k = next(i for i, (a, b) in enumerate(zip([r[1] for r in rows4], expect4)) if a != b)
+        ctx.record_violation('balance-as-later-argument', 'only(cost_currency, balance): row %d gives %s, the postings so far hold %s' % (
+            k, rows4[k][1], expect4[k]), payload={'query': 'SELECT cost_currency, only(cost_currency, balance) AS o FROM #postings'})
     # a condition that consults the balance: it is the sum over all postings scanned so far
     allpos = [r[0] for r in conn.execute('SELECT position FROM #postings').fetchall()]
     q = "SELECT balance FROM #postings WHERE empty(balance) OR NOT empty(balance)"
@@ -280,9 +295,50 @@ ZERO_COST_TAIL = '''
 '''
 
 
+def priceless_layer(ctx):
+    """a ledger without any price directive: value() and convert() have nothing to convert with, and still commute with sum"""
+    import re
+    rng = ctx.rng
+    text, entries, errors, options = ledgers.gen_ledger(rng, ntxn=12)
+    text = re.sub(r'^[0-9-]+ price .*\n', '', text, flags=re.M)
+    entries, errors, options = ledgers.load(text + ZERO_COST_TAIL)
+    conn = ledgers.connect(entries, errors, options)
+    if conn.execute('SELECT count(*) FROM #prices').fetchall() not in ([], [(0,)]):
+        raise RuntimeError('the priceless ledger has prices')
+    for f in ('value({})', "convert({}, 'USD')", "convert({}, 'EUR')", 'value({}, 2020-06-30)', 'cost({})', 'units({})'):
+        for key in ('account', "'all'", 'currency'):
+            q = 'SELECT %s AS k, %s AS a, sum(%s) AS b FROM #postings GROUP BY k' % (key, f.format('sum(position)'), f.format('position'))
+            try:
+                res = conn.execute(q).fetchall()
+            except Exception as exc:  # noqa: BLE001
+                ctx.record_violation('homomorphism-query-raises', '%s: %r' % (q, exc))
+                continue
+            ctx.evaluations += 1
+            ctx.count('priceless-oracle')
+            ctx.nontrivial_hashes.add(hash(('priceless', q)))
+            for k, a, b in res:
+                if not inv_close(a, b, divides=f.split('(')[0] in ('convert', 'value')):
+                    ctx.record_violation('f-of-sum-differs-from-sum-of-f:' + f.split('(')[0], '%s (no prices in the ledger): %s: %s vs %s' % (q, k, a, b),
+                                         payload={'query': q, 'ledger': text})
+                    break
+        # ... and the running balance under f is the running sum of f
+        q = 'SELECT %s AS a, %s AS b FROM #postings' % (f.format('balance'), f.format('position'))
+        run_ = inventory.Inventory()
+        for n, (a, b) in enumerate(conn.execute(q).fetchall()):
+            if isinstance(b, amount.Amount):
+                run_.add_amount(b)
+            elif b is not None:
+                run_.add_position(b)
+            if not inv_close(a, run_, divides=f.split('(')[0] in ('convert', 'value')):
+                ctx.record_violation('f-of-balance-differs-from-running-sum-of-f:' + f.split('(')[0], '%s (no prices): row %d: %s vs %s' % (q, n, a, run_),
+                                     payload={'query': q, 'ledger': text})
+                break
+
+
 def run(ctx):
     rng = ctx.rng
-    n = 12 if ctx.thorough() else 3
+    priceless_layer(ctx)
+    n = 12 if ctx.thorough() else 2
     for k in range(n):
         text, entries, errors, options = ledgers.gen_ledger(rng, ntxn=rng.range(8, 25))
         # lots received for nothing: their cost is zero, which is a cost all the same
